@@ -13,7 +13,7 @@ import z3
 from . import model as M
 from . import spec as S
 from .sym import (NONE, NOTIMPL, MODE_ID, Obj, T_DEC, T_FLOAT, T_FRAC, T_INT,
-                  T_STDDEC, TObj, Unsupported, V, VBool, VClass, VDate,
+                  T_STDDEC, TObj, Unsupported, V, VBool, VClass, VDate, VDateTime,
                   VDictLit, VExc, VFunc, VGen, VInt, VList, VNone, VNotImpl,
                   VObj, VOpaque, VRat, VStr, VTuple, VUser, pack, sorts_of,
                   suffixes_of, unpack, vbool, vint)
@@ -248,6 +248,8 @@ class BuiltinModel:
         if isinstance(a, VBool) and isinstance(b, VBool):
             return VBool(a.t == b.t)
         if isinstance(a, VDate) and isinstance(b, VDate):
+            if isinstance(a, VDateTime) or isinstance(b, VDateTime):
+                raise Unsupported("== with a datetime")
             return VBool(z3.And(a.y == b.y, a.m == b.m, a.d == b.d))
         if isinstance(a, (VInt, VRat)) != isinstance(b, (VInt, VRat)):
             # number vs non-number (object.__eq__ -> identity -> False)
@@ -300,6 +302,10 @@ class BuiltinModel:
             return isinstance(v, VList)
         if n == "date":
             return isinstance(v, VDate)
+        if n == "datetime":
+            return isinstance(v, VDateTime)
+        if n == "NoneType":
+            return isinstance(v, VNone)
         if n == "Unit":
             return isinstance(v, VObj) and v.klass in ("Unit", "Currency")
         if n == "Currency":
@@ -884,6 +890,8 @@ class BuiltinModel:
             return VClass("int")
         if isinstance(v, VTuple):
             return VClass("tuple")
+        if isinstance(v, VDateTime):
+            return VClass("datetime")
         if isinstance(v, VDate):
             return VClass("date")
         if isinstance(v, VStr):
